@@ -316,6 +316,14 @@ def corpus(engs):
         ("absent", [["enter", "postgres", 1, {}], ["goc"], ["exit", "normal"], ["enter", "redshift", 1, {}], ["goc"], ["exit", "normal"],
                     ["enter", "postgres", 2, {}], ["goc"], ["exit", "normal"]]),
     ]
+    c += [   # the Builder object keeps the conn kwarg of an earlier activation of the same engine
+        ("absent", [["act", "duckdb", 1, {}], ["goc"], ["enter", "snowflake", 2, {}], ["goc"], ["act", "duckdb", None, {}], ["goc"]]),
+        ("sandbox", [["imp", "A", "pyspark.sql"], ["act", "duckdb", 1, {}], ["loadf", "snowflake"], ["imp", "A", "pyspark.sql.functions"],
+                     ["goc"], ["enter", "snowflake", 2, {}], ["goc"], ["imp", "S", "pyspark.sql.functions"], ["goc"],
+                     ["act", "duckdb", None, {}], ["enter", "duckdb", None, {}], ["loadf", "duckdb"], ["goc"], ["goc"]]),
+        ("absent", [["act", "postgres", 1, {}], ["goc"], ["deact"], ["act", "redshift", 2, {}], ["goc"], ["deact"],
+                    ["act", "postgres", 2, {}], ["deact"], ["act", "redshift", 1, {}], ["goc"]]),
+    ]
     c = [(env, with_dial(evs)) for env, evs in c]
     return [(env, evs) for env, evs in c if all(ev[0] not in ("act", "enter", "loadf") or ev[1] in engs for ev in evs)]
 
